@@ -174,6 +174,15 @@ def build(case):
     return X, y, sf, gs, ys, ss
 
 
+def _score_dtype(case, scores):
+    """Integer-valued non-negative scores may be handed over in an integer dtype (a hard classifier's uint8 / int
+    predictions); None otherwise."""
+    dt = case.get("score_dtype")
+    if dt and all(float(v).is_integer() and 0 <= v <= 100 for v in scores):
+        return dt
+    return None
+
+
 def fit(case):
     """Fit on the case; returns (fitted optimizer, p) with p[i] = P(y_hat = 1) of training row i."""
     from fairlearn.postprocessing import ThresholdOptimizer
@@ -183,7 +192,7 @@ def fit(case):
     # only the method the optimizer is told to use returns the generated scores; the estimator's other
     # prediction methods answer on a reversed scale, so using another method at fit or predict time shows
     to = ThresholdOptimizer(
-        estimator=ScoreColumnMulti(primary="predict_proba" if pm == "auto" else pm),
+        estimator=ScoreColumnMulti(primary="predict_proba" if pm == "auto" else pm, out_dtype=_score_dtype(case, ss)),
         constraints=case["constraint"],
         objective=case["objective"],
         grid_size=case["grid"],
@@ -282,6 +291,7 @@ _SCORES = {
     # distinct but very close levels (1e-7 apart, also at magnitude 1000): exactly representable midpoints
     # exist, so every cut between them is a legitimate thresholding
     "near": st.tuples(st.sampled_from([0.0, 0.5, 1.0]), st.integers(0, 3)).map(lambda t: t[0] + t[1] * 1e-7),
+    "small_ints": st.integers(0, 3).map(float),
     "near_large": st.tuples(st.sampled_from([1000.0, 1000.5]), st.integers(0, 3)).map(lambda t: t[0] + t[1] * 1e-6),
 }
 
@@ -297,6 +307,7 @@ def config(draw, accuracy_bias=False):
         "grid": draw(st.sampled_from(GRIDS)),
         "prefit": draw(st.booleans()),
         "pm": draw(st.sampled_from(["predict", "decision_function", "auto", "predict_proba"])),
+        "score_dtype": draw(st.sampled_from([None, None, "uint8", "int64", "uint16", "float32"])),
     }
 
 
